@@ -40,12 +40,20 @@ def prepare(modules):
         shutil.rmtree(root)
     os.makedirs(root)
     subprocess.run(['rsync', '-a', '--exclude', 'target', '--exclude', '.git', REPO + '/', root + '/'], check=True)
-    for mod in modules:
-        pkg, src = MODULES[mod]
-        hp = os.path.join(VERIF, 'kani', mod)
-        with open(os.path.join(root, src), 'a') as f:
-            f.write('\n#[cfg(kani)]\n#[path = "%s"]\nmod verif_kani;\n' % hp)
     return root
+
+
+def attach(root, mod):
+    """attach exactly ONE harness module (all source files are first restored to /repo's text): a harness module that no
+    longer compiles against a changed tree then leaves the other modules' harnesses decidable"""
+    for m, (pkg, src) in MODULES.items():
+        dst = os.path.join(root, src)
+        if os.path.exists(os.path.join(REPO, src)):
+            shutil.copyfile(os.path.join(REPO, src), dst)
+    pkg, src = MODULES[mod]
+    hp = os.path.join(VERIF, 'kani', mod)
+    with open(os.path.join(root, src), 'a') as f:
+        f.write('\n#[cfg(kani)]\n#[path = "%s"]\nmod verif_kani;\n' % hp)
 
 
 def cleanup(root):
@@ -139,6 +147,9 @@ def run(root, pkg, harnesses, jobs=4, timeout_s=1500, extra=()):
     cmd += list(extra)
     env = dict(os.environ)
     env['CARGO_NET_OFFLINE'] = 'true'
+    # CBMC writes the CNF for an external SAT solver (kissat) to $TMPDIR: 500 MB per harness, left behind when a run is killed
+    env['TMPDIR'] = os.path.join(root, 'tmp')
+    os.makedirs(env['TMPDIR'], exist_ok=True)
     t0 = time.time()
     logp = os.path.join(root, 'kani-%s.log' % pkg)
     to = False
